@@ -193,6 +193,17 @@ Section SEM.
                            (firstn (Z.to_nat k) (sort_by (tk_before top) g)))
              (group_by same_ts rows).
 
+  (* Metrics15ShortcutPlanner over the roll-up table. The table as a row list: every line of samples contributes one
+     count to the slot floor15(ts) of its stream (countMerge over a set of slots = the number of lines in them); the
+     select groups the slots by (fingerprint, intDiv(slot, range) * range). *)
+  Definition floor15 (x : Z) : Z := Z.quot x 15000000000 * 15000000000.
+  Definition m15_rows (rows : list mrow) : list mrow := map (fun r => set_ts (floor15 (r_ts r)) r) rows.
+  Definition eval_m15 (v : m15_val) (g : list mrow) : Qc :=
+    match v with MVCount => qlen g | MVCountDiv ms => Qcdiv (qlen g) (secs_of_ms ms) end.
+  Definition sem_m15 (v : m15_val) (d : Z) (slots : list mrow) : list mrow :=
+    map (fun g => agg_row (eval_m15 v g) g) (group_by same_fp_ts (map (fun r => set_ts (bucket_sql_z d (r_ts r)) r) slots)).
+  Definition sem_m15_rows (v : m15_val) (d : Z) (rows : list mrow) : list mrow := sem_m15 v d (m15_rows rows).
+
   (* the chain: a metric planner applied to what its Main yields; every planner of the log part
      (stream selection, filters, parsers, joins) is summarised by [base], the rows leaving the log pipeline *)
   Fixpoint sem (p : planner) (c : pctx) (base : list mrow) {struct p} : option (list mrow) :=
@@ -211,7 +222,10 @@ Section SEM.
       | None => None end
     | PLabelsJoin m _ _ _ => sem m c base              (* labels by fingerprint: already carried in the rows *)
     | PMainFinalizer m _ _ => sem m c base             (* column selection and ORDER BY only *)
-    | PMetrics15 _ _ => None                           (* reads another table: see m15 below *)
+    (* the shortcut: FingerprintFilter over Metrics15Shortcut reads the 15-second roll-up of the selected streams' lines *)
+    | PFingerprintFilter _ (PMetrics15 f d) =>
+      match m15_val_of f d with Some v => Some (sem_m15_rows v d base) | None => None end
+    | PMetrics15 _ _ => None
     | _ => Some base
     end.
 
@@ -370,15 +384,6 @@ Fixpoint fp_label_filters (p : planner) : list label_filter :=
 Definition pipeline_label_filters (ppl : list stage) : list label_filter :=
   flat_map (fun st => match st with PLabelFilter f => [f] | _ => [] end) ppl.
 Definition n_label_filters (s : script) : nat := List.length (pipeline_label_filters (sel_pipeline (stream_selector s))).
-(* The roll-up table as a row list: every line of samples contributes one count to the slot floor15(ts) of its
-   stream (countMerge over a set of slots = the number of lines in them). The shortcut select groups the slots by
-   (fingerprint, intDiv(slot, range) * range). *)
-Definition floor15 (x : Z) : Z := Z.quot x 15000000000 * 15000000000.
-Definition m15_rows (rows : list mrow) : list mrow := map (fun r => set_ts (floor15 (r_ts r)) r) rows.
-Definition eval_m15 (v : m15_val) (g : list mrow) : Qc :=
-  match v with MVCount => qlen g | MVCountDiv ms => Qcdiv (qlen g) (secs_of_ms ms) end.
-Definition sem_m15 (v : m15_val) (d : Z) (slots : list mrow) : list mrow :=
-  map (fun g => agg_row (eval_m15 v g) g) (group_by same_fp_ts (map (fun r => set_ts (bucket_sql_z d (r_ts r)) r) slots)).
 (* the time window of the shortcut select *)
 Definition m15_in_window (c : pctx) (ts : Z) : bool := Z.leb (floor15 (c_from_ns c)) ts && Z.ltb ts (floor15 (c_to_ns c)).
 
